@@ -317,6 +317,17 @@ class MacroProgram(ElementProgram):
                     content = nodes.Translate(clause, content)
                     translated = True
 
+                    if clause and end is None:
+                        # The translation of the explicit message id goes
+                        # between a start- and an end-tag (as tal:content).
+                        start['suffix'] = ">"
+                        end = {
+                            'prefix': '</',
+                            'name': start['name'],
+                            'space': '',
+                            'suffix': '>'
+                        }
+
             # tal:attributes
             try:
                 clause = ns[TAL, 'attributes']
